@@ -114,7 +114,7 @@ kll_sketch<T, C, A>& kll_sketch<T, C, A>::operator=(const kll_sketch& other) {
   std::swap(items_size_, copy.items_size_);
   std::swap(min_item_, copy.min_item_);
   std::swap(max_item_, copy.max_item_);
-  reset_sorted_view();
+  std::swap(sorted_view_, copy.sorted_view_); // released by its owner's allocator
   return *this;
 }
 
@@ -133,7 +133,7 @@ kll_sketch<T, C, A>& kll_sketch<T, C, A>::operator=(kll_sketch&& other) {
   std::swap(items_size_, other.items_size_);
   std::swap(min_item_, other.min_item_);
   std::swap(max_item_, other.max_item_);
-  reset_sorted_view();
+  std::swap(sorted_view_, other.sorted_view_); // stays with the allocator that issued it
   return *this;
 }
 
